@@ -1112,7 +1112,7 @@ pub fn mutate_bytes(rng: &mut Rng, m: &BytecodeModule, bytes: &mut Vec<u8>) -> &
                 if class == Class::Count && rng.chance(1, 4) {
                     // "remaining bytes" class of values
                     let remaining = file_len.saturating_sub(pos as u32 + 4);
-                    v = *rng.pick(&[remaining, remaining + 1, remaining.saturating_sub(1), remaining / 4, remaining / 8, file_len]);
+                    v = *rng.pick(&[remaining, remaining.wrapping_add(1), remaining.saturating_sub(1), remaining / 4, remaining / 8, file_len]);
                 }
                 put_u32(bytes, pos, v);
                 what = if class == Class::Count { "bytes-count" } else { "bytes-u32" };
@@ -1158,15 +1158,15 @@ pub fn mutate_bytes(rng: &mut Rng, m: &BytecodeModule, bytes: &mut Vec<u8>) -> &
                     0,
                     4,
                     24,
-                    off + 1,
-                    off + 2,
+                    off.wrapping_add(1),
+                    off.wrapping_add(2),
                     off.wrapping_add(4),
                     off.wrapping_sub(4),
                     other,
                     file_len,
                     file_len.wrapping_sub(len),
                     file_len.wrapping_sub(len).wrapping_add(4),
-                    file_len + 4,
+                    file_len.wrapping_add(4),
                     u32::MAX,
                     u32::MAX - 3,
                     0x8000_0000,
@@ -1241,7 +1241,7 @@ pub fn mutate_bytes(rng: &mut Rng, m: &BytecodeModule, bytes: &mut Vec<u8>) -> &
                     file_len,
                     file_len.wrapping_sub(12 * nsec as u32),
                     file_len.wrapping_sub(12 * nsec as u32).wrapping_add(4),
-                    file_len + 4,
+                    file_len.wrapping_add(4),
                     u32::MAX,
                     u32::MAX - 3,
                 ]);
@@ -1278,14 +1278,14 @@ pub fn mutate_bytes(rng: &mut Rng, m: &BytecodeModule, bytes: &mut Vec<u8>) -> &
             0,
             base,
             base.wrapping_sub(1),
-            base + 4,
-            cur + 1,
+            base.wrapping_add(4),
+            cur.wrapping_add(1),
             cur.wrapping_sub(1),
-            cur + 4,
+            cur.wrapping_add(4),
             cur.wrapping_sub(4),
             neighbour,
             sec_len,
-            sec_len + 1,
+            sec_len.wrapping_add(1),
             sec_len.wrapping_sub(1),
             u32::MAX,
         ]);
@@ -1558,7 +1558,7 @@ pub fn mutate_code(rng: &mut Rng, m: &mut BytecodeModule) -> &'static str {
             let second = code[p] == 0x08 && p + 9 <= code.len() && rng.bool();
             let q = if second { p + 5 } else { p + 1 };
             let cur = u32::from_le_bytes([code[q], code[q + 1], code[q + 2], code[q + 3]]);
-            let v = if second { *rng.pick(&[0u32, 1, 2, u32::MAX, cur + 1]) } else { hostile_u32(rng, class, cur, &sz) };
+            let v = if second { *rng.pick(&[0u32, 1, 2, u32::MAX, cur.wrapping_add(1)]) } else { hostile_u32(rng, class, cur, &sz) };
             code[q..q + 4].copy_from_slice(&v.to_le_bytes());
             what = "code-operand";
         }
